@@ -102,7 +102,7 @@ CHECKS.update({
         design="8/C08"),
     "C09": dict(
         technique="Coq theorems over the connection state machine: full (state x message) table, notification handling, TCP failure silent, OnClose exactly once; exhaustive state x message live scenarios",
-        text="c09_unexpected_message: every pair that is not legal progress gets NOTIFICATION (5, state subcode), close, no callback other than OnClose; c09_legal_table: the legal pairs are exactly OPEN/OpenSent, KEEPALIVE/OpenConfirm, KEEPALIVE+UPDATE/Established; c09_notification_received / _no_reply; c09_tcp_failure_silent; c09_onclose_once for every input sequence. Live: every state x message type x direction, plus multi-session sequences, compared with the model and judged.",
+        text="c09_unexpected_message: every pair that is not legal progress gets NOTIFICATION (5, state subcode), close, no callback other than OnClose; c09_legal_table: the legal pairs are exactly OPEN/OpenSent, KEEPALIVE/OpenConfirm, KEEPALIVE+UPDATE/Established; c09_notification_received / _no_reply; c09_tcp_failure_silent; c09_eof_mid_message (a connection ending inside a message yields the complete messages before it and a plain I/O error: no phantom message); c09_onclose_once for every input sequence. Live: every state x message type x direction, plus multi-session sequences, compared with the model and judged.",
         note="Trusted: Coq kernel; differential tie.",
         design="8/C09"),
     "C10": dict(
